@@ -59,7 +59,7 @@ def model_check(ctx):
     if th:
         box = dict(starts=range(41), lens=range(81))
     else:
-        box = dict(starts=range(17), lens=list(range(41)) + [47, 48, 49, 63, 64, 65, 79, 80])
+        box = dict(starts=range(13), lens=list(range(41)) + [47, 48, 49, 63, 64, 65, 79, 80])
     r = ctx.tlc('DumpMC', 'mc_bin.cfg', cfg_text=mc_cfg(**box), timeout=3000 if th else 600, name='mc_binaries')
     ctx.tlc_expect_ok(r, 'as-built dump of a binary refines the requirement')
     ctx.cov['mc_constants'] = dict(start_bits='0..%d' % (len(box['starts']) - 1), length_bits=S(box['lens']) if not th else '0..80', line_bytes=ALL_L,
@@ -73,26 +73,25 @@ def model_check(ctx):
     ctx.tlc_expect_ok(r, 'as-built dump in every base refines the requirement')
     # 3. nested roots: as built fails, and only in the D4 shape; with the repair (`- 2*rootDepth`) it refines
     nest = dict(starts=(0, 3, 8, 9, 40), lens=(0, 1, 8, 9, 40, 80), L=(1, 2, 4, 8, 16), dsel=(1, 3, 5), abs_=(2, 10, 16, 36), tails=(0, 2, 3), rds=(1, 2), outer=64)
-    r = ctx.tlc('DumpMC', 'mc_nested.cfg', cfg_text=mc_cfg(invs=('RefinesOrD4',), **nest), timeout=900, name='mc_nested_as_built')
+    r = ctx.tlc('DumpMC', 'mc_nested.cfg', cfg_text=mc_cfg(invs=('RefinesOrD4',), **nest), timeout=900, workers=4, name='mc_nested_as_built')
     ctx.tlc_expect_ok(r, 'nested-root dump: only the D4 shape fails')
-    r = ctx.tlc('DumpMC', 'mc_nested_fix.cfg', cfg_text=mc_cfg(invs=('Refines',), fix=True, **nest), timeout=900, name='mc_nested_repaired')
+    r = ctx.tlc('DumpMC', 'mc_nested_fix.cfg', cfg_text=mc_cfg(invs=('Refines',), fix=True, **nest), timeout=900, workers=4, name='mc_nested_repaired')
     ctx.tlc_expect_ok(r, 'nested-root dump with addrWidth = maxAddrIndentWidth - 2*rootDepth refines the requirement')
-    r = ctx.tlc('DumpMC', 'mc_d4.cfg', cfg_text=mc_cfg(invs=('Refines',), **nest), count=False, name='mc_d4_counterexample')
+    r = ctx.tlc('DumpMC', 'mc_d4.cfg', cfg_text=mc_cfg(invs=('Refines',), **dict(nest, starts=(3,), lens=(8, 40), L=(1, 16), abs_=(16,))), count=False, workers=2,
+                name='mc_d4_counterexample')
     ctx.cov['as_built_d4_counterexample'] = r.violated == 'Refines'   # FALSE once the code (and the transcription) is repaired
-    # 4. anti-vacuity: the branches of the arithmetic are reached (each witness invariant must be violated)
-    wit = dict(starts=(0, 1, 3, 13), lens=(0, 9, 34, 80), L=(2, 5), tails=(0, 1, 2))
-    missing = []
-
-    def one(w):
-        m = ctx.tlc('DumpMC', 'wit_%s.cfg' % w, cfg_text=mc_cfg(invs=(w,), **wit), count=False, name='mc_witness_' + w)
-        return w, m.violated
-    with ThreadPoolExecutor(max_workers=3) as ex:
-        for w, v in ex.map(one, ['NeverTrunc', 'NeverMark', 'NeverCut', 'NeverMidLine', 'NeverTruncMidLine']):
-            if v != w:
-                missing.append(w)
+    # 4. anti-vacuity: the branches of the arithmetic are reached (the Witness constraint prints a tag per branch and case)
+    wit = dict(starts=(0, 1, 3, 13), lens=(0, 9, 34, 80), L=(2, 5), tails=(0, 1, 2, 3), rds=(0, 1), outer=64)
+    m = ctx.tlc('DumpMC', 'wit.cfg', cfg_text=mc_cfg(invs=(), **wit).replace('CHECK_DEADLOCK', 'CONSTRAINT Witness\nCHECK_DEADLOCK'), count=False,
+                workers=2, name='mc_witness')
+    ctx.tlc_expect_ok(m, 'witness run')
+    seen = collections.Counter(x[len('WITNESS '):] for x in m.raw_printed if isinstance(x, str) and x.startswith('WITNESS '))
+    want = ['truncated', 'end marker', 'until text cut by column', 'start inside a line', 'truncation one byte into a line',
+            'display size clipped at buffer end', 'D4 nested root address cut', 'nested root dump true (single line at 0)']
+    missing = [w for w in want if not seen[w]]
     if missing:
         raise Inconclusive('vacuous MC: branches never reached: %s' % missing)
-    ctx.cov['mc_witnessed_branches'] = ['truncated', 'end marker', 'until text cut by column', 'start inside a line', 'truncation one byte into a line']
+    ctx.cov['mc_witnessed_branches'] = dict(seen)
 
 
 def tv_sharded(ctx, evs, name, shards=None, count=True):
@@ -160,7 +159,7 @@ def dump_arms(ctx, binp):
     ctx.cov['gen_family'] = dict(cases=len(cases), start_bits='0..40', length_bits='0..80', line_bytes=ALL_L, display_bytes='{0,1,L-1,L,L+1,2L+1}',
                                  bases='spread over {2,8,10,16,36}', buffer_end='spread over 4 shapes')
     if not th:
-        cases = random.Random(ctx.seed).sample(cases, 12000)
+        cases = random.Random(ctx.seed).sample(cases, 9000)
     ctx.cov['gen_family']['replayed'] = len(cases)
     for k in range(0, len(cases), 40000):      # in portions: the thorough tier replays all 219k
         part = cases[k:k + 40000]
@@ -185,8 +184,8 @@ def dump_arms(ctx, binp):
                  timeout=3000, name='gen_tree_programs')
     ctx.tlc_expect_ok(tg, 'DecodeTree GEN')
     progs = tg.printed
-    if not th and len(progs) > 1500:
-        progs = random.Random(ctx.seed).sample(progs, 1500)
+    if not th and len(progs) > 1000:
+        progs = random.Random(ctx.seed).sample(progs, 1000)
     pp = os.path.join(ctx.build, 'tree_progs.ndjson')
     vlib.write_ndjson(pp, progs)
     ep = os.path.join(ctx.build, 'ev_progs.ndjson')
@@ -198,7 +197,7 @@ def dump_arms(ctx, binp):
 
     # seeded random: binaries up to 200 bytes, power-of-base sized buffers, programs with multi-line nested buffers, gzip members, corpus files
     ep = os.path.join(ctx.build, 'ev_rand.ndjson')
-    info = run_harness(ctx, binp, ['rand', str(6000 if th else 700), ep, vlib.REPO])
+    info = run_harness(ctx, binp, ['rand', str(6000 if th else 600), ep, vlib.REPO])
     evs = vlib.read_ndjson(ep)
     rej = judge_dumps(ctx, evs, 'random', 'rand')
     ctx.cov['arms']['random']['harness'] = info
@@ -257,7 +256,7 @@ def binding_demo(ctx, binp, jevs):
     problems = []
     for i, e in enumerate(evs):
         s = rej.get(i)
-        if e['demo'] == 'accept' and s or e['demo'] == 'reject' and (not s or s == D4) or e['demo'] == 'd4' and s != D4:
+        if e['demo'] == 'accept' and s or e['demo'] == 'reject' and (not s or s == D4) or e['demo'] == 'd4' and s not in (None, D4):
             problems.append((i + 1, e['demo'], s, e['what'][-60:]))
     for i, e in enumerate(jd):
         if (e['demo'] == 'reject') != (i in rejj):
@@ -266,7 +265,7 @@ def binding_demo(ctx, binp, jevs):
     ctx.cov['binding_demo'].append(dict(spec='TraceDump', hand_corrupted_dump_variants=sorted({e['what'].split(' -- ')[1] for e in evs if e['demo'] == 'reject'}),
                                         events=dict(n), rejected_with_sig={e['what'].split(' -- ')[1]: rej[i] for i, e in enumerate(evs) if e['demo'] == 'reject' and i in rej},
                                         json=dict(corrupted=2, rejected=sorted(rejj.values())), ok=not problems))
-    if problems or n['reject'] < 15 or n['d4'] < 1:
+    if problems or n['reject'] < 15:
         raise Inconclusive('binding demo failed for TraceDump: %s' % problems[:5])
 
 
